@@ -94,3 +94,58 @@ func VerifC11TCPClassMismatches() (bad []int, smallFrame int) {
 	}
 	return bad, tcpSmallFrame
 }
+
+// verifC11Listener is a listener whose Accept first returns the scripted
+// errors, one per call, and then the connections handed to it.
+type verifC11Listener struct {
+	errs   []error
+	conns  chan net.Conn
+	closed chan struct{}
+}
+
+func (l *verifC11Listener) Accept() (net.Conn, error) {
+	if len(l.errs) > 0 {
+		err := l.errs[0]
+		l.errs = l.errs[1:]
+		return nil, err
+	}
+	select {
+	case c := <-l.conns:
+		return c, nil
+	case <-l.closed:
+		return nil, net.ErrClosed
+	}
+}
+func (l *verifC11Listener) Close() error   { close(l.closed); return nil }
+func (l *verifC11Listener) Addr() net.Addr { return &net.TCPAddr{IP: net.IPv4(127, 0, 0, 1), Port: 53} }
+
+// VerifC11AcceptLoop runs the REAL tcpEngine.acceptLoop over a listener whose
+// Accept fails with errs (in order) before a client connects, and reports
+// whether that client was still admitted (registered and served) within wait.
+func VerifC11AcceptLoop(errs []error, wait time.Duration) (admitted bool) {
+	e := newTCPEngine(verifC11NoRaw{}, "tcp", 4, defaultResourcePlan(1))
+	ln := &verifC11Listener{errs: errs, conns: make(chan net.Conn), closed: make(chan struct{})}
+	done := make(chan struct{})
+	go func() { defer close(done); e.acceptLoop(ln) }()
+	srvSide, cliSide := net.Pipe()
+	defer cliSide.Close()
+	select {
+	case ln.conns <- srvSide: // Accept took the connection: the loop is alive
+		deadline := time.Now().Add(wait)
+		for time.Now().Before(deadline) && e.active.Load() == 0 {
+			time.Sleep(time.Millisecond)
+		}
+		admitted = e.active.Load() > 0
+	case <-done: // the loop returned with the listener still open
+		srvSide.Close()
+	case <-time.After(wait):
+		srvSide.Close()
+	}
+	cliSide.Close()
+	ln.Close()
+	select {
+	case <-done:
+	case <-time.After(wait):
+	}
+	return admitted
+}
